@@ -13,4 +13,17 @@ PROPS = {
         "trusted": ["crypto hash implementations (digest supplied to the model)", "os/exec launching the script"],
         "facts": [],
     },
+    "C02": {
+        "families": [("negotiate", []), ("clientver", []), ("gostrings", [])],
+        "rule": "negotiate: protocolVersion called in-process (verif_export) for generated serve configs (legacy fields, versioned maps with "
+                "version 0 / negative / large, net-rpc / gRPC / empty sets, factory on/off) x PLUGIN_PROTOCOL_VERSIONS lists (permuted, duplicated, "
+                "garbage items, empty); clientver: Client.Start through a scripted runner fed the announced version field; gostrings: strings.Split/"
+                "TrimSpace, strconv.Atoi/ParseBool/Itoa against their Coq models; distinct = distinct input tuples",
+        "assumptions": [
+            "plugin sets are homogeneous (all members net/rpc or all gRPC), as the code comment requires; mixed sets make the protocol depend on map iteration order and are not generated",
+            "Go's sort.Sort result is modelled by insertion sort; strings.Split/strconv.Atoi by Base/GoStrings.v (checked by the gostrings family on every run)",
+        ],
+        "trusted": ["os.Setenv/os.Getenv for PLUGIN_PROTOCOL_VERSIONS in the in-process call"],
+        "facts": [],
+    },
 }
